@@ -147,23 +147,28 @@ pub open spec fn parse_C09(decode: bool, r: Result<AisFragments>) -> bool {
     })
 }
 /// the message-level properties at the parser level (the entry point users call): a sentence delivered with decoding on carries the
-/// message obtained by unarmoring its own payload with its own fill count and decoding that (all per-type postconditions of
-/// messages::parse); one named copy per property so that a refutation is attributed
-pub open spec fn parse_msg(decode: bool, r: Result<AisFragments>) -> bool {
-    decode && r is Ok && r->Ok_0 is Complete ==> ({
-        let s = r->Ok_0->Complete_0;
-        s.message is Some && decoded(s.data@, s.fill_bit_count as int, s.message->Some_0)
-    })
+/// message obtained by unarmoring its payload with its fill count and decoding that (all per-type postconditions of messages::parse),
+/// and that payload is the transmitted one: this line's payload, or the concatenation of exactly this group's fragment payloads (`step`)
+/// with the last fragment's fill count; an accepted fragment is buffered exactly (nothing dropped, duplicated, shifted or left over
+/// from an earlier group).  Rejections and acceptance decisions are NOT part of this clause (C05/C06/C17 own them).
+/// One named copy per property so that a refutation is attributed.
+pub open spec fn parse_msg(pre: PState, post: PState, line: Seq<u8>, decode: bool, r: Result<AisFragments>) -> bool {
+    &&& (decode && r is Ok && r->Ok_0 is Complete ==> ({
+            let s = r->Ok_0->Complete_0;
+            &&& s.message is Some && decoded(s.data@, s.fill_bit_count as int, s.message->Some_0)
+            &&& (n_ok(line) ==> match step(pre, line).1 { Outcome::Complete(v) => s@.data == v.data && s@.fill == v.fill, _ => true })
+        }))
+    &&& (n_ok(line) && r is Ok && r->Ok_0 is Incomplete ==> match step(pre, line).1 { Outcome::Incomplete(v) => post.data == step(pre, line).0.data, _ => true })
 }
-pub open spec fn parse_msg_C03(decode: bool, r: Result<AisFragments>) -> bool { parse_msg(decode, r) }
-pub open spec fn parse_msg_C04(decode: bool, r: Result<AisFragments>) -> bool { parse_msg(decode, r) }
-pub open spec fn parse_msg_C10(decode: bool, r: Result<AisFragments>) -> bool { parse_msg(decode, r) }
-pub open spec fn parse_msg_C11(decode: bool, r: Result<AisFragments>) -> bool { parse_msg(decode, r) }
-pub open spec fn parse_msg_C12(decode: bool, r: Result<AisFragments>) -> bool { parse_msg(decode, r) }
-pub open spec fn parse_msg_C13(decode: bool, r: Result<AisFragments>) -> bool { parse_msg(decode, r) }
-pub open spec fn parse_msg_C14(decode: bool, r: Result<AisFragments>) -> bool { parse_msg(decode, r) }
-pub open spec fn parse_msg_C15(decode: bool, r: Result<AisFragments>) -> bool { parse_msg(decode, r) }
-pub open spec fn parse_msg_C16(decode: bool, r: Result<AisFragments>) -> bool { parse_msg(decode, r) }
+pub open spec fn parse_msg_C03(pre: PState, post: PState, line: Seq<u8>, decode: bool, r: Result<AisFragments>) -> bool { parse_msg(pre, post, line, decode, r) }
+pub open spec fn parse_msg_C04(pre: PState, post: PState, line: Seq<u8>, decode: bool, r: Result<AisFragments>) -> bool { parse_msg(pre, post, line, decode, r) }
+pub open spec fn parse_msg_C10(pre: PState, post: PState, line: Seq<u8>, decode: bool, r: Result<AisFragments>) -> bool { parse_msg(pre, post, line, decode, r) }
+pub open spec fn parse_msg_C11(pre: PState, post: PState, line: Seq<u8>, decode: bool, r: Result<AisFragments>) -> bool { parse_msg(pre, post, line, decode, r) }
+pub open spec fn parse_msg_C12(pre: PState, post: PState, line: Seq<u8>, decode: bool, r: Result<AisFragments>) -> bool { parse_msg(pre, post, line, decode, r) }
+pub open spec fn parse_msg_C13(pre: PState, post: PState, line: Seq<u8>, decode: bool, r: Result<AisFragments>) -> bool { parse_msg(pre, post, line, decode, r) }
+pub open spec fn parse_msg_C14(pre: PState, post: PState, line: Seq<u8>, decode: bool, r: Result<AisFragments>) -> bool { parse_msg(pre, post, line, decode, r) }
+pub open spec fn parse_msg_C15(pre: PState, post: PState, line: Seq<u8>, decode: bool, r: Result<AisFragments>) -> bool { parse_msg(pre, post, line, decode, r) }
+pub open spec fn parse_msg_C16(pre: PState, post: PState, line: Seq<u8>, decode: bool, r: Result<AisFragments>) -> bool { parse_msg(pre, post, line, decode, r) }
 /// C19 at the parser level: whatever is returned (Complete or Incomplete) reports the type of THIS line's payload
 pub open spec fn parse_C19(line: Seq<u8>, r: Result<AisFragments>) -> bool {
     r is Ok ==> mtype_at(line, n_d(line) + 1, match r->Ok_0 { AisFragments::Complete(s) => s.message_type, AisFragments::Incomplete(s) => s.message_type })
@@ -316,7 +321,7 @@ def apply(fc):
         fc.lemma(nm, tg)
     fc.contract('new', within='impl AisParser', ensures=['r@ == (PState { id: None, num: 0, data: Seq::empty() })', 'r.inv()'], tags=['C05', 'C17'])
     fc.contract('parse', within='impl AisParser', requires=['line_small(line@.len() as int)', 'old(self).inv()'],
-                ensures=['parse_post(old(self)@, final(self)@, line@, decode, r)', 'parse_C02(line@, decode, r)', 'parse_C19(line@, r)', 'parse_KFD4(line@, r)', 'parse_C09(decode, r)', 'parse_msg_C03(decode, r)', 'parse_msg_C04(decode, r)', 'parse_msg_C10(decode, r)', 'parse_msg_C11(decode, r)', 'parse_msg_C12(decode, r)', 'parse_msg_C13(decode, r)', 'parse_msg_C14(decode, r)', 'parse_msg_C15(decode, r)', 'parse_msg_C16(decode, r)', 'final(self).inv()'], tags=['C02', 'C05', 'C06', 'C07', 'C08', 'C17'])
+                ensures=['parse_post(old(self)@, final(self)@, line@, decode, r)', 'parse_C02(line@, decode, r)', 'parse_C19(line@, r)', 'parse_KFD4(line@, r)', 'parse_C09(decode, r)', 'parse_msg_C03(old(self)@, final(self)@, line@, decode, r)', 'parse_msg_C04(old(self)@, final(self)@, line@, decode, r)', 'parse_msg_C10(old(self)@, final(self)@, line@, decode, r)', 'parse_msg_C11(old(self)@, final(self)@, line@, decode, r)', 'parse_msg_C12(old(self)@, final(self)@, line@, decode, r)', 'parse_msg_C13(old(self)@, final(self)@, line@, decode, r)', 'parse_msg_C14(old(self)@, final(self)@, line@, decode, r)', 'parse_msg_C15(old(self)@, final(self)@, line@, decode, r)', 'parse_msg_C16(old(self)@, final(self)@, line@, decode, r)', 'final(self).inv()'], tags=['C02', 'C05', 'C06', 'C07', 'C08', 'C17'])
     fc.contract('verify_and_extend_data', within='impl AisParser',
                 ensures=['(old(self).message_id == ais_sentence.message_id && ais_sentence.fragment_number as int == old(self).fragment_number + 1) <==> r is Ok',
                          'r is Err ==> final(self)@ == old(self)@ && !(r->Err_0 is Checksum)',
